@@ -1,0 +1,69 @@
+//go:build verif
+
+package ordered
+
+// This file is only compiled with the "verif" build tag. It exposes read-only
+// views of the internal representation of Map for external runtime monitors.
+// It adds no behaviour to the package.
+
+// VerifSlot describes one slot of the internal item storage.
+type VerifSlot[K comparable] struct {
+	Key     K
+	Deleted bool
+}
+
+// VerifState reports the number of slots, live (non-deleted) slots and
+// tombstones, and whether the index and the item storage agree: every index
+// entry points at an in-range, non-deleted slot holding that key, and every
+// live slot is indexed.
+func (m *Map[K, V]) VerifState() (slots, live, tombstones int, consistent bool) {
+	if m == nil {
+		return 0, 0, 0, true
+	}
+	consistent = true
+	slots = len(m.items)
+	for i, it := range m.items {
+		if it.deleted {
+			tombstones++
+			continue
+		}
+		live++
+		if idx, ok := m.index[it.Key]; !ok || idx != i {
+			consistent = false
+		}
+	}
+	if live != len(m.index) {
+		consistent = false
+	}
+	for k, idx := range m.index {
+		if idx < 0 || idx >= len(m.items) || m.items[idx].deleted || m.items[idx].Key != k {
+			consistent = false
+		}
+	}
+	return slots, live, tombstones, consistent
+}
+
+// VerifSlots returns a copy of the slot layout (key and tombstone flag per
+// slot, in storage order).
+func (m *Map[K, V]) VerifSlots() []VerifSlot[K] {
+	if m == nil {
+		return nil
+	}
+	out := make([]VerifSlot[K], len(m.items))
+	for i, it := range m.items {
+		out[i] = VerifSlot[K]{Key: it.Key, Deleted: it.deleted}
+	}
+	return out
+}
+
+// VerifIndex returns a copy of the key index.
+func (m *Map[K, V]) VerifIndex() map[K]int {
+	if m == nil {
+		return nil
+	}
+	out := make(map[K]int, len(m.index))
+	for k, v := range m.index {
+		out[k] = v
+	}
+	return out
+}
